@@ -33,6 +33,7 @@ inductive Expr where
   | ite (c a b : Expr)
   | abs (a : Expr)                      -- the builtin `abs(a)`
   | mm (k : MinMax) (a b : Expr)        -- the builtins `min(a, b)` / `max(a, b)`; n-ary calls are the left fold `min(min(a, b), c)`
+  | toStr (a : Expr)                    -- the builtin `str(a)` (W13); a formatted value `{a}` of an f-string is the same thing
   deriving DecidableEq, Repr
 
 inductive Ty where | int | bool | string     -- `string` is the Arduino `String` class
@@ -255,6 +256,14 @@ inductive Err where
       and Python's flooring ones may differ (K01b, K01c) -/
   | signedDiv
   deriving DecidableEq, Repr
+
+/-- Python's `str(v)` / `format(v, "")` of an int (decimal digits) or a string (itself).  `str(True)` is `"True"` under CPython and
+    `String(true)` is `"1"` on the device: bools are kept out of the model as for `mon.write` (`typeError`: no theorem speaks about
+    such a run) -/
+def Val.pyStr : Val → Except Err String
+  | .int n => .ok (toString n)
+  | .str s => .ok s
+  | .bool _ => .error .typeError
 
 /-- the operand of Python arithmetic: a string is a TypeError -/
 def Val.num : Val → Except Err Int
